@@ -19,7 +19,7 @@ func init() {
 		Explanation: "(R1) host names are lower-cased on both sides: every domain that feeds the host tables in NewRouters and the request host in findVirtualHost flow through strings.ToLower; " +
 			"(R2) precedence: in findHighestPriorityIndex the decision points, tagged by the data they consult — (exact map, port), (exact map, \"*\"), (wildcard list of port), (wildcard list of \"*\"), default — are reachable only through the miss edges of the earlier ones, and each wildcard scan is a forward range loop that returns at the first suffix match under the guard hostLen < len(host); " +
 			"(R3) longest suffix first: every wildcard list is sorted after the last insertion and the comparator orders by decreasing hostLen; (R4) first match in configuration order: GetRouteFromEntries is a forward range over routes returning at the first non-nil Match, routes are only appended or truncated, never reordered; " +
-			"(R5) routes and fastIndex are touched only under the virtual host's mutex; (R6) purity: nothing reachable from MatchRoute/MatchAllRoutes/MatchRouteFromHeaderKV stores into a field of routersImpl, VirtualHostImpl or a route rule. (R5, view) a route list read under vh.mutex is not returned, stored or indexed after the lock is released while writers update the backing array in place. (R7) Path/Prefix/Regex rules return themselves only behind the true edges of matchRoute and of their own predicate applied as (request path variable, configured pattern); header/method/variable matchers and matchRoute have the all-of shape. (R7, helpers) the path predicate may live in a helper of the package receiving the request path; any further strings/regexp call on the request path besides the rule's own predicate is reported.",
+			"(R5) routes and fastIndex are touched only under the virtual host's mutex; (R6) purity: nothing reachable from MatchRoute/MatchAllRoutes/MatchRouteFromHeaderKV stores into a field of routersImpl, VirtualHostImpl or a route rule. (R5, view) a route list read under vh.mutex is not returned, stored or indexed after the lock is released while writers update the backing array in place. (R7) Path/Prefix/Regex rules return themselves only behind the true edges of matchRoute and of their own predicate applied as (request path variable, configured pattern); header/method/variable matchers and matchRoute have the all-of shape. (R7, helpers) the path predicate may live in a helper of the package receiving the request path; any further strings/regexp call on the request path besides the rule's own predicate is reported. (R1, round 5) every findVirtualHostIndex/findHighestPriorityIndex call made for a request takes the result of strings.ToLower - universally, not just the last one.",
 		Run: runC04,
 	})
 }
@@ -59,9 +59,16 @@ func runC04(c *Ctx) {
 	if fv == nil {
 		c.Unresolved("C04.R1", "routersImpl.findVirtualHost")
 	} else {
-		ok := false
-		for _, cs := range callsIn(fv, false, func(cc *ssa.CallCommon) bool { return methodName(cc) == "findVirtualHostIndex" }) {
-			ok = fromToLower(argsOf(cs.Instr.Common())[0], 0)
+		// every lookup made for a request uses the lower-cased host (a raw lookup tried first can already answer with a
+		// lower-priority wildcard whose suffix happens to be lower case)
+		lookups := callsIn(fv, true, func(cc *ssa.CallCommon) bool {
+			return methodName(cc) == "findVirtualHostIndex" || methodName(cc) == "findHighestPriorityIndex"
+		})
+		ok := len(lookups) > 0
+		for _, cs := range lookups {
+			if !fromToLower(argsOf(cs.Instr.Common())[0], 0) {
+				ok = false
+			}
 		}
 		c.Check("C04.R1", funcKey(fv)+":request-host-lowercased", fv.Pos(), ok, "the request host passes strings.ToLower before lookup", "the request host is looked up without strings.ToLower: 'Example.com' and 'example.com' would select different virtual hosts")
 	}
